@@ -33,7 +33,7 @@ MC = os.path.join(C.SPEC, "MC_MarkerStore.tla")
 SPEC_FILES = [MC, os.path.join(C.SPEC, "MarkerStore.tla")]
 CORPUS = os.path.join(C.VERIF, "corpus", "markerstore_c17.ndjson")
 CURRENT = dict(fl=True, lr=False, gg=True, cl=True)          # the switches of the code as it is
-DESIGN_INVARIANTS = "TypeOK C17Cex FileAfterDrop GenNotAhead ClosedMeansGone"
+DESIGN_INVARIANTS = "TypeOK C17Cex FileAfterDrop GenNotAhead ClosedMeansGone SingleWriter"
 ACTIONS = ["Call", "CallEnd", "IsClean", "Drop", "Open", "PWake", "PDisc", "PUpgrade", "PLoadGen", "PLoadClean",
            "PPersist", "PLoop"]
 
@@ -62,16 +62,16 @@ DEFECTS = {
 TORN = {"torn_exists": "NoTorn", "torn_in_file": "NoTornInFile"}
 TIERS = {
     # verify: (topics, calls) checked with every interleaving; emit: the same for the prompt scheduler
-    "quick": {"verify": [(("a", "b"), 3), (("a",), 4)], "emit": [(("a", "b"), 4), (("a",), 4)], "replay": 320},
+    "quick": {"verify": [(("a", "b"), 3), (("a",), 4)], "emit": [(("a", "b"), 3), (("a",), 5)], "replay": 320},
     "thorough": {"verify": [(("a", "b"), 4), (("a",), 6), (("a", "b"), 5)], "emit": [(("a", "b"), 5), (("a",), 6)],
                  "replay": 6000},
 }
 COMMITTED = {
     "MC_MarkerStore_quick.cfg": dict(topics=("a", "b"), calls=3),
     "MC_MarkerStore_thorough.cfg": dict(topics=("a", "b"), calls=4),
-    "MC_MarkerStore_emit_quick.cfg": dict(topics=("a", "b"), calls=4, prompt=True, keep=True, inv=DESIGN_INVARIANTS + " Emit"),
+    "MC_MarkerStore_emit_quick.cfg": dict(topics=("a", "b"), calls=3, prompt=True, keep=True, inv=DESIGN_INVARIANTS + " Emit"),
     "MC_MarkerStore_emit_thorough.cfg": dict(topics=("a", "b"), calls=5, prompt=True, keep=True, inv=DESIGN_INVARIANTS + " Emit"),
-    "MC_MarkerStore_noguard.cfg": dict(topics=("a", "b"), calls=3, gg=False),
+    "MC_MarkerStore_noguard.cfg": dict(topics=("a",), calls=4, gg=False),
 }
 for _n, (_sw, _what) in DEFECTS.items():
     COMMITTED["MC_MarkerStore_defect_%s.cfg" % _n] = dict(keep=True, inv="TypeOK C17Cex", **_sw)
@@ -300,7 +300,9 @@ def prepare(tier):
     for name in TORN:
         tasks.append(("t_" + name, dict(COMMITTED["MC_MarkerStore_%s.cfg" % name]), False, 1))
     tasks.append(("noguard", dict(COMMITTED["MC_MarkerStore_noguard.cfg"]), False, 1))
-    results = C.parallel_map(lambda x: tlc_cached(root, x[0], x[1], coverage=x[2], workers=x[3]), tasks, workers=4)
+    # at most 6 TLC workers at a time (two verification runs with 2 workers each + single-worker runs)
+    results = C.parallel_map(lambda x: tlc_cached(root, x[0], x[1], coverage=x[2], workers=x[3]), tasks,
+                             workers=4 if len(t["verify"]) <= 2 else 3)
     by = {x[0]: r for x, r in zip(tasks, results)}
     shutil.rmtree(root, ignore_errors=True)
 
